@@ -873,18 +873,12 @@ func (u *UnitResult) otherViolation(o *OblResult, exclude string, opt Options) b
 	}
 	env := u.frame.specEnv(g.entry, g.entry)
 	t := env.evalBool(ex)
-	q := g.query([]*Obligation{o.obl}, true)
-	q = strings.Replace(q, "(check-sat)\n", "(assert (not "+t+"))\n(check-sat)\n", 1)
-	// definitions created by evaluating the predicate must be declared: rebuild body
-	q2 := g.prelude(true) + g.body(true)
-	for _, a := range g.privAsms[o.obl.Origin] {
-		q2 += "(assert " + a + ")\n"
-	}
-	q2 += "(assert (not " + oblTerm(o.obl) + "))\n(assert (not " + t + "))\n(check-sat)\n"
+	// evaluate the predicate first (its definitions must be declared), then build the query
+	q2 := g.query([]*Obligation{o.obl}, true)
+	q2 = strings.Replace(q2, "(check-sat)\n", "(assert (not "+t+"))\n(check-sat)\n", 1)
 	file := scratchFile(opt.WorkDir, o.Name+"_outside_known")
 	os.WriteFile(file, []byte(q2), 0o644)
 	a, _ := race(file, opt.TimeoutMs, 1, opt.Solvers)
-	_ = q
 	return a.Status != "unsat"
 }
 
